@@ -1279,6 +1279,11 @@ class Bits:
 
         new_slice = bitstring.bitstore.offset_slice_indices_lsb0(slice(start, end, None), len(self))
         msb0_start, msb0_end = self._validate_slice(new_slice.start, new_slice.stop)
+        if bytealigned:
+            # Byte alignment refers to the lsb0 position, so the byte aligned msb0 search can't be used.
+            for lsb0_pos in self._findall_lsb0(bs, start, end, 1, True):
+                return (lsb0_pos,)
+            return ()
         p = self._rfind_msb0(bs, msb0_start, msb0_end, bytealigned)
 
         if p:
@@ -1389,7 +1394,12 @@ class Bits:
         assert bitstring.options.lsb0
         new_slice = bitstring.bitstore.offset_slice_indices_lsb0(slice(start, end, None), len(self))
         msb0_start, msb0_end = self._validate_slice(new_slice.start, new_slice.stop)
-
+        if bytealigned:
+            # Byte alignment refers to the lsb0 position, so the byte aligned msb0 search can't be used.
+            for p in self._findall_msb0(bs, msb0_start, msb0_end, None, False):
+                if (len(self) - p - len(bs)) % 8 == 0:
+                    return (len(self) - p - len(bs),)
+            return ()
         p = self._find_msb0(bs, msb0_start, msb0_end, bytealigned)
         if p:
             return (len(self) - p[0] - len(bs),)
